@@ -166,6 +166,116 @@ func (g *gen) interruption() {
 	}
 }
 
+// storeItems: header and data of the blocks lo..hi for the P2P stores, in block order
+func (g *gen) storeItems(lo, hi uint64, junkBefore bool) []string {
+	var out []string
+	for k := lo; k <= hi; k++ {
+		if g.r.Chance(8) {
+			out = append(out, []string{fmt.Sprintf("FH%d", k), fmt.Sprintf("XH%d", k)}[g.r.Intn(2)])
+		}
+		out = append(out, fmt.Sprintf("H%d", k))
+		if !g.empty[k] {
+			if junkBefore && g.r.Chance(30) {
+				out = append(out, fmt.Sprintf("JD%d", k)) // junk BEFORE the genuine data of that height: replaced by it
+			}
+			out = append(out, fmt.Sprintf("D%d", k))
+		} else if junkBefore && g.r.Chance(10) {
+			out = append(out, fmt.Sprintf("JD%d", k)) // junk for an empty block: dropped, the local data is rebuilt
+		}
+	}
+	return out
+}
+
+func (g *gen) longChain(n int) {
+	for j := 1; j < n; j++ {
+		if j%17 == 3 {
+			g.produce(1)
+		} else {
+			g.produce(0)
+		}
+	}
+}
+
+func (g *gen) p2pStores(thorough bool) {
+	r := g.r
+	// small chains: items arrive in chunks, polls in both orders, junk / forged items, restarts and crashes in between
+	ns := 10
+	if thorough {
+		ns = 60
+	}
+	for i := 0; i < ns; i++ {
+		ih := uint64(1 + r.Intn(4))
+		g.reset(ih, uint64(r.Intn(3)))
+		g.chain(2+r.Intn(6), false)
+		lo := ih
+		for lo <= g.top() {
+			hi := lo + uint64(r.Intn(4))
+			if hi > g.top() {
+				hi = g.top()
+			}
+			items := g.storeItems(lo, hi, true)
+			switch r.Intn(5) {
+			case 0: // arrives while nobody polls, the poll comes later
+				g.op("p2pstore poll=0 items=%s", strings.Join(items, ","))
+				if r.Bool() {
+					g.interruption()
+				}
+				g.op("p2pstore items=- order=%s", []string{"hd", "dh"}[r.Intn(2)])
+			default:
+				g.op("p2pstore items=%s order=%s", strings.Join(items, ","), []string{"hd", "dh"}[r.Intn(2)])
+			}
+			if r.Chance(30) {
+				g.interruption()
+			}
+			if r.Chance(20) { // the same blocks also appear on the DA layer
+				g.spread(g.parts(), g.head, 1+r.Intn(3), false)
+				g.op("run")
+			}
+			lo = hi + 1
+		}
+		g.op("p2pstore items=-")
+		g.op("show")
+	}
+	// long chains: a store that is more than 100 heights ahead of the loop's cursor at one poll
+	// (a) a late joiner: everything is in the stores when the node polls for the first time
+	g.reset(1, 0)
+	g.longChain(131 + r.Intn(20))
+	g.op("p2pstore items=%s", strings.Join(g.storeItems(g.ih, g.top(), false), ","))
+	g.op("show")
+	if !thorough {
+		return
+	}
+	// (b) a node that was offline for long: it synced a few blocks, was stopped (cleanly / killed), the stores kept
+	// growing, it comes back and polls
+	for v := 0; v < 3; v++ {
+		g.reset(uint64(1+v), 0)
+		g.longChain(150 + r.Intn(100))
+		cut := g.ih + uint64(5+r.Intn(20))
+		g.op("p2pstore items=%s", strings.Join(g.storeItems(g.ih, cut, false), ","))
+		g.op("p2pstore poll=0 items=%s", strings.Join(g.storeItems(cut+1, g.top(), false), ","))
+		if v == 1 {
+			g.op("crash keep=%d", r.Intn(9))
+		} else {
+			g.op("restart")
+		}
+		g.op("p2pstore items=- order=%s", []string{"hd", "dh"}[v%2])
+		g.op("show")
+	}
+	// (c) growth in several jumps, some above and some below 100
+	g.reset(1, 0)
+	g.longChain(260)
+	lo := g.ih
+	for _, step := range []uint64{40, 120, 30, 70} {
+		hi := lo + step - 1
+		if hi > g.top() {
+			hi = g.top()
+		}
+		g.op("p2pstore items=%s", strings.Join(g.storeItems(lo, hi, false), ","))
+		lo = hi + 1
+	}
+	g.op("show")
+}
+
 func Gen(r *hx.Rng, tier string, w io.Writer) {
 	g := &gen{w: w, r: r}
 	thorough := tier == "thorough"
@@ -305,6 +415,9 @@ func Gen(r *hx.Rng, tier string, w io.Writer) {
 		}
 		g.op("run")
 	}
+
+	// --- the REAL P2P store loops (HeaderStoreRetrieveLoop / DataStoreRetrieveLoop over go-header store doubles)
+	g.p2pStores(thorough)
 
 	// --- a crash at every write boundary of the block applications of one run, followed by a run
 	shapes := [][]int{{1, 1}, {0, 1}}
